@@ -1453,24 +1453,20 @@ class TrackSpecificationReader:
             default_base_url = self._r(corpus_spec, "base-url", mandatory=False, default_value=None)
             default_source_format = self._r(corpus_spec, "source-format", mandatory=False, default_value=track.Documents.SOURCE_FORMAT_BULK)
             default_action_and_meta_data = self._r(corpus_spec, "includes-action-and-meta-data", mandatory=False, default_value=False)
-            corpus_target_idx = None
-            corpus_target_ds = None
-            corpus_target_type = None
-
-            if len(indices) == 1:
-                corpus_target_idx = self._r(corpus_spec, "target-index", mandatory=False, default_value=indices[0].name)
-            elif len(indices) > 0:
-                corpus_target_idx = self._r(corpus_spec, "target-index", mandatory=False)
-
-            if len(data_streams) == 1:
-                corpus_target_ds = self._r(corpus_spec, "target-data-stream", mandatory=False, default_value=data_streams[0].name)
-            elif len(data_streams) > 0:
-                corpus_target_ds = self._r(corpus_spec, "target-data-stream", mandatory=False)
-
-            if len(indices) == 1 and len(indices[0].types) == 1:
-                corpus_target_type = self._r(corpus_spec, "target-type", mandatory=False, default_value=indices[0].types[0])
-            elif len(indices) > 0:
-                corpus_target_type = self._r(corpus_spec, "target-type", mandatory=False)
+            # the defaults on corpus level apply regardless of whether the track declares indices or data streams itself (they may
+            # as well be created from templates or by an operation); a single declared index / data stream is the fallback.
+            corpus_target_idx = self._r(
+                corpus_spec, "target-index", mandatory=False, default_value=indices[0].name if len(indices) == 1 else None
+            )
+            corpus_target_ds = self._r(
+                corpus_spec, "target-data-stream", mandatory=False, default_value=data_streams[0].name if len(data_streams) == 1 else None
+            )
+            corpus_target_type = self._r(
+                corpus_spec,
+                "target-type",
+                mandatory=False,
+                default_value=indices[0].types[0] if len(indices) == 1 and len(indices[0].types) == 1 else None,
+            )
 
             for doc_spec in self._r(corpus_spec, "documents"):
                 base_url = self._r(doc_spec, "base-url", mandatory=False, default_value=default_base_url)
